@@ -6,6 +6,26 @@ import os
 ROOT = os.path.dirname(os.path.dirname(os.path.abspath(__file__)))
 
 CHECKS = {
+    'C06': dict(
+        category='exploration',
+        text=('impl.is_subtype / is_assignable compared with an independent declarative relation (RM: JLS 4.5.1 / Kotlin containment on '
+              'intervals, declaration-site variance, capture conversion) on (a) every ordered pair of exhaustively enumerated type pools '
+              'over fixed small class tables per language, (b) Hypothesis-generated class tables with pairs related by construction, '
+              '(c) the queries the real generator issues. Soundness on all pairs, exactness + reflexivity + transitivity + bottom on the '
+              'exact fragment.'),
+        design_ref='DESIGN.md §3 C06, §2.3',
+        note='Trusts RM (self-tested on algebraic laws and javac-confirmed facts); kotlinc/scalac/groovyc are not installed.',
+        technique='differential testing against a reference subtyping model: exhaustive small tables + Hypothesis constructive pairs',
+    ),
+    'C16': dict(
+        category='exploration',
+        text=('Hypothesis RuleBasedStateMachine drives a real Context and an association-list reference model in lock step over histories of '
+              'add/remove/overwrite/re-add on all five entity kinds and growing namespace trees; every query (current, path, glob, get_decl, '
+              'reverse lookup) is compared after every step.'),
+        design_ref='DESIGN.md §3 C16',
+        note='Trusts the association-list model; order of path/glob results is not judged (the property is silent).',
+        technique='stateful model-based testing (Hypothesis rule-based state machine) against a reference scoped map',
+    ),
     'C19': dict(
         category='exploration',
         text=('Exhaustive enumeration of all digraphs with self-loops on <=4 labelled vertices (thorough; quick: all on <=3 plus a '
